@@ -218,6 +218,8 @@ def run(ctx, tier, res, tag=''):
                         'count': t[3], 'destination': 'none (length query)' if t[4] else 'exact-extent buffer',
                         'verdict': 'result objects = reference decoder output bit for bit (floats as bit patterns); reads inside the '
                                    'message; writes inside the reported length'})
+    from .. import promises
+    promises.report(ctx, res, [GET_PATH, GET_DATA, CALC], promises.MEMORY_KINDS, tag)
     res.rule = ('per shape of C07 (plus the null-destination variant of every variable-length type): CalcVssPathLength, GetVssPath and '
                 'GetVssData interpreted on an exact-extent message whose control octets come from the reference encoder and whose payload '
                 'octets are symbolic; result objects must equal the reference decoder output, nothing may be read outside the message or '
